@@ -62,7 +62,7 @@ def run(tier):
             for s in body.blocks[i]["s"]:
                 if s["k"] == "assign" and s["r"]["k"] == "agg" and s["r"].get("adt") == RC + "ReprCString":
                     ctors.append((p, fn, body, s["r"]))
-    ck.floor("ReprCString aggregate construction sites", len(ctors), 2)
+    ck.floor("ReprCString aggregate construction sites", len(ctors), 1)
     for p, fn, body, agg in ctors:
         key = "cglue/" + p
         ck.ob("S3-built-only-in-constructors", key, fn.get("impl_trait") == "std::convert::From" and fn.get("impl_self_adt") == RC + "ReprCString",
@@ -98,7 +98,10 @@ def run(tier):
                 tw = chain[3]
                 clo = tw[2][1]
                 cpath = clo[1][len("closure:"):] if clo[0] == "agg" and clo[1].startswith("closure:") else None
-                good = term[0] == "agg" and term[2] == "Some" and term[4][0] == ("const", 0, "u8") and cpath is not None and closure_is_ne_zero(fns, cpath) \
+                # the terminator is an iterable of exactly one zero byte: Some(0), iter::once(0), [0]
+                one_zero = (term[0] == "agg" and len(term) > 4 and len(term[4]) == 1 and term[4][0] == ("const", 0, "u8")) or \
+                           (term[0] == "call" and term[1].endswith("iter::once") and mir.strip(term[2][0]) == ("const", 0, "u8"))
+                good = one_zero and cpath is not None and closure_is_ne_zero(fns, cpath) \
                     and mir.contains(tw[2][0], lambda x: x == ("arg", 1))
                 why = "terminator=%s predicate=%s source-from-arg=%s" % (mir.fmt(term), cpath, mir.contains(tw[2][0], lambda x: x == ("arg", 1)))
             # idiom B: CString::new(..).into_bytes_with_nul().into_boxed_slice()
@@ -115,8 +118,11 @@ def run(tier):
         if fn.get("impl_self_adt") == RC + "ReprCString" and fn.get("impl_trait") in ("std::convert::From", "std::clone::Clone") and not any(c[0] == p for c in ctors):
             body = mir.Body(fn)
             o = body.origin_local(0)
-            ok = o[0] == "call" and (o[1] == forward.INTO or o[1] == "std::convert::From::from") and o[4][4] and "ReprCString as std::convert::From<&str>" in o[4][4]
-            ck.ob("S3-delegates-to-constructor", "cglue/" + p, ok, "%s must delegate to the &str constructor: %s" % (p, mir.fmt(o)[:160]), sample={"fn": p})
+            # delegation to another From constructor of ReprCString (which is checked as a constructor or as a delegation itself)
+            target = o[4][4] if o[0] == "call" and len(o) > 4 and o[4] and len(o[4]) > 4 else ""
+            ok = o[0] == "call" and (o[1] == forward.INTO or o[1] == "std::convert::From::from") and bool(target) and "ReprCString as std::convert::From<" in target \
+                and target.rsplit("::", 1)[0] != p.rsplit("::", 1)[0]
+            ck.ob("S3-delegates-to-constructor", "cglue/" + p, ok, "%s must delegate to another From constructor of ReprCString: %s" % (p, mir.fmt(o)[:160]), sample={"fn": p, "to": target})
     ck.ob("S3-not-copy", "cglue/ReprCString", not any(im.get("self_adt") == RC + "ReprCString" and im.get("trait") == "std::marker::Copy" for im in f.impls("cglue-lib")), "ReprCString implements Copy")
     # ---- Drop -------------------------------------------------------------------------------------------------
     dp = mine.get("<cglue::repr_cstring::ReprCString as std::ops::Drop>::drop")
